@@ -48,14 +48,14 @@ CHECKS = {
     "C06": {
         "scenarios": [{"name": "dups"}],
         "accept": ["dups:", "holding:passed-over"],
-        "technique": "Lean: execution marks the entry hash, the mark is permanent over every chain (relation rows only grow: invariant lifted through the whole block), marked or already-recorded entries are skipped, holding window visits strictly earlier heights. Tie: repetition patterns synced with and without the duplicates, lock-step with the model",
+        "technique": "Lean: execution marks the entry hash, the mark is permanent over every chain (relation rows only grow: invariant lifted through the whole block), marked or already-recorded entries are skipped, holding window visits strictly earlier heights; block-level 'at least once': every batch held in the window of a rated block gets a status / replay mark / dropped in that block (history variable statusLog, lifted through the whole block transaction). Tie: repetition patterns synced with and without the duplicates, lock-step with the model",
         "assumptions": [ORACLES],
         "design_ref": "DESIGN.md §7 C06",
     },
     "C07": {
         "scenarios": [{"name": "convert"}, {"name": "ledger"}],
         "accept": ["convert:", "conversion:", "holding:passed-over"],
-        "technique": "Lean: Convert succeeds iff its guards hold and then returns floor(amt*src/dst) within int64, src=min/dst=max under PIP-10, value non-increasing, all reject cases. Tie: conversions.Convert on edge/random inputs vs the model; chains with graded/ungraded patterns, recorded to_amount vs recorded rates, never executed in the submitting block",
+        "technique": "Lean: Convert succeeds iff its guards hold and then returns floor(amt*src/dst) within int64, src=min/dst=max under PIP-10, value non-increasing, all reject cases; a held conversion is dealt with by the first rated block after it (block-level theorem). Tie: conversions.Convert on edge/random inputs vs the model; chains with graded/ungraded patterns, recorded to_amount vs recorded rates, never executed in the submitting block",
         "assumptions": ["big.Int arithmetic modelled by Int/Nat"],
         "design_ref": "DESIGN.md §7 C07",
     },
@@ -125,7 +125,7 @@ CHECKS = {
     "C17": {
         "scenarios": [{"name": "ledger"}, {"name": "bank"}],
         "accept": ["history-replay:", "paging:", "holding:"],
-        "technique": "Lean: pages at offsets 0, 50, ... partition any ordered result; arrival records pending; rejected batch has no effect; status update hits exactly the rows of the hash; kernel-checked witness that an unconvertible amount stays pending. Tie: lock-step chain; monitor replays the whole history (+ scheduled adjustments) to the balances after every block",
+        "technique": "Lean: pages at offsets 0, 50, ... partition any ordered result; arrival records pending; rejected batch has no effect; status update hits exactly the rows of the hash; kernel-checked witness that an unconvertible amount stays pending; otherwise a held batch is resolved by the first rated block (partial theorem). Tie: lock-step chain; monitor replays the whole history (+ scheduled adjustments) to the balances after every block",
         "assumptions": [ORACLES, "API paging is modelled as LIMIT/OFFSET over a fixed ordered list"],
         "design_ref": "DESIGN.md §7 C17",
     },
